@@ -312,11 +312,16 @@ std::vector<Field> build()
         ends[7] = dj::hot_cue{"Last", 700.25, dj::pad_color{255, 0, 128, 7}};
         shortv[2] = dj::hot_cue{"Third", 33.0, dj::pad_color{9, 8, 7, 6}};
         for (int k = 0; k < 8; ++k) full[k] = dj::hot_cue{"Q" + std::to_string(k), 10.0 * (k + 1), eng::standard_pad_colors::pads[k]};
+        // offsets at and below zero: only -1 is a reserved empty-slot encoding, so these must stay present (or be refused)
+        L low(8);
+        low[1] = dj::hot_cue{"Neg", -2.5, dj::pad_color{1, 1, 1, 1}};
+        low[3] = dj::hot_cue{"Zero", 0.0, dj::pad_color{2, 2, 2, 2}};
+        low[5] = dj::hot_cue{"Half", -0.5, dj::pad_color{3, 3, 3, 3}};
         auto cue = [](const std::optional<dj::hot_cue>& c) { return cue_text(c); };
-        for (auto& v : std::vector<std::pair<std::string, L>>{{"empty list", empty}, {"slots 0 and 7", ends}, {"three-slot list, slot 2", shortv}, {"all eight", full}})
+        for (auto& v : std::vector<std::pair<std::string, L>>{{"empty list", empty}, {"slots 0 and 7", ends}, {"three-slot list, slot 2", shortv}, {"all eight", full}, {"offsets <= 0", low}})
         {
             L val = v.second;
-            add(f, v.first, [val](Tr& t) { t.set_hot_cues(val); }, {list8(val, cue)}, {list8(val, cue)});
+            add(f, v.first, [val](Tr& t) { t.set_hot_cues(val); }, {list8(val, cue)}, {list8(val, cue)}, v.first != "offsets <= 0");
             put(f, [val](dj::track_snapshot& sn) { sn.hot_cues = val; });
             for (int k = 0; k < 8; ++k) f.values.back().extra_expect.push_back({"hot_cue_at(" + std::to_string(k) + ")", cue(k < (int)val.size() ? val[k] : std::optional<dj::hot_cue>{})});
         }
@@ -333,11 +338,15 @@ std::vector<Field> build()
         ends[7] = dj::loop{"Last", 700.25, 800.0, dj::pad_color{255, 0, 128, 7}};
         shortv[2] = dj::loop{"Third", 33.0, 66.0, dj::pad_color{9, 8, 7, 6}};
         for (int k = 0; k < 8; ++k) full[k] = dj::loop{"L" + std::to_string(k), 10.0 * (k + 1), 10.0 * (k + 1) + 5, eng::standard_pad_colors::pads[7 - k]};
+        L low(8);
+        low[1] = dj::loop{"Neg", -2.5, 50.0, dj::pad_color{1, 1, 1, 1}};
+        low[3] = dj::loop{"Zero", 0.0, 0.0, dj::pad_color{2, 2, 2, 2}};
+        low[5] = dj::loop{"Both", -7.5, -0.5, dj::pad_color{3, 3, 3, 3}};
         auto lp = [](const std::optional<dj::loop>& c) { return loop_text(c); };
-        for (auto& v : std::vector<std::pair<std::string, L>>{{"empty list", empty}, {"slots 0 and 7", ends}, {"three-slot list, slot 2", shortv}, {"all eight", full}})
+        for (auto& v : std::vector<std::pair<std::string, L>>{{"empty list", empty}, {"slots 0 and 7", ends}, {"three-slot list, slot 2", shortv}, {"all eight", full}, {"offsets <= 0", low}})
         {
             L val = v.second;
-            add(f, v.first, [val](Tr& t) { t.set_loops(val); }, {list8(val, lp)}, {list8(val, lp)});
+            add(f, v.first, [val](Tr& t) { t.set_loops(val); }, {list8(val, lp)}, {list8(val, lp)}, v.first != "offsets <= 0");
             put(f, [val](dj::track_snapshot& sn) { sn.loops = val; });
             for (int k = 0; k < 8; ++k) f.values.back().extra_expect.push_back({"loop_at(" + std::to_string(k) + ")", lp(k < (int)val.size() ? val[k] : std::optional<dj::loop>{})});
         }
